@@ -32,8 +32,6 @@ Ev == C.events
 More == l <= Len(Ev)
 E == Ev[l]
 
-KindName(v) == CASE v.t = "int" -> "Int" [] v.t = "bool" -> "Bool" [] v.t = "str" -> "Str"
-                 [] v.t = "nil" -> "Optional" [] OTHER -> "?"
 
 TraceInit == t \in 1..Len(Cases) /\ l = 1 /\ m = Boot(Cases[t].entry) /\ pc = 0
 
@@ -47,7 +45,7 @@ Fetch ==
 
 Printed ==
     /\ More /\ E.e = "print" /\ pc < Len(m.pr)
-    /\ E.text = ShowV(m.pr[pc + 1]) /\ E.kind = KindName(m.pr[pc + 1])
+    /\ E.text = m.pr[pc + 1].text /\ (m.pr[pc + 1].kind # "" => E.kind = m.pr[pc + 1].kind)
     /\ pc' = pc + 1 /\ l' = l + 1 /\ UNCHANGED <<t, m>>
 
 TraceNext == Fetch \/ Printed
